@@ -616,6 +616,20 @@ func c02Tolerated(c *c02Ctx, run *c02Run, resp *c02Resp) bool {
 	return false
 }
 
+var c02Sampled sync.Map
+
+// c02SampleOnce keeps one evidence sample per (test, scenario class).
+func (c *c02Ctx) sampleOnce(class string, v map[string]any) {
+	if !c.m.WantSample() {
+		return
+	}
+	if _, dup := c02Sampled.LoadOrStore(fmt.Sprintf("%p|%s", c.m, class), true); dup {
+		return
+	}
+	v["obs"], v["class"] = c.obs, class
+	c.m.Sample(v)
+}
+
 func c02WaitCh(ch <-chan struct{}) bool {
 	t := time.NewTimer(c02Watchdog)
 	defer t.Stop()
